@@ -52,7 +52,7 @@ def world (b : Dev) (xs : List RxCall) : W :=
   { cfg := { plugs := [], has := [], nodes := [], version := [] }, clients := [cli1, cli2],
     devs := [([65], devA), ([66], b), ([67], devC)], store := store0, nextId := 3, nacc := 2, nsock := 3, alNext := 2, pendingX := xs }
 
-def pin : PassIn := { now := 2000, acc := 0, con := 0, soe := 0, envs := [] }
+def pin : PassIn := { now := 2000, acc := 0, con := [0], soe := [0], envs := [] }
 
 def w1 : W := world devB xA
 def w2 : W := world devB' (xA ++ xB')
@@ -361,7 +361,7 @@ theorem mkHyps (Q : Bytes → Bool) (g j : Nat) (w w' : W) (p : PassIn) (xp xB x
 
 /-! ### two passes -/
 
-def pin2 : PassIn := { now := 3000, acc := 0, con := 0, soe := 0, envs := [] }
+def pin2 : PassIn := { now := 3000, acc := 0, con := [0], soe := [0], envs := [] }
 
 theorem rel0 : PassRel Q 1 1 w1 w2 where
   cli := rfl
